@@ -614,12 +614,19 @@ func (x *inst) battery(note string) {
 		out = make([]uint32, 0, limit)
 		it := x.bm.Iter()
 		for len(out) < limit && it.Next() {
+			v := it.Value()
+			if v2 := it.Value(); v2 != v { // Value does not advance
+				out = append(out, v2)
+			}
+			out = append(out, v)
+		}
+		if len(out) < limit && (it.Next() || it.Next()) { // an exhausted iterator stays exhausted
 			out = append(out, it.Value())
 		}
 	}) {
 		return
 	}
-	if x.cmpEnum("Iter", out, want, note) && len(want) > 0 && len(want) <= 64 {
+	if x.cmpEnum("Iter", out, want, note) && len(want) > 0 {
 		// two iterators over the unchanged set advanced in lock-step: each must still enumerate
 		// everything (an iterator's position is its own)
 		var out2 []uint32
@@ -657,6 +664,66 @@ func (x *inst) battery(note string) {
 		return
 	}
 	rangeOK := x.cmpEnum("Range", out, want, note)
+	if rangeOK && len(want) > 0 {
+		// read calls from inside the callback (a complete Range, All, a fresh Iter run to its end,
+		// Contains, Len — at the first two and the last element): reads do not change the set, the
+		// outer enumeration must be unaffected
+		nested := func(i int) {
+			if i > 1 && i != len(want)-1 {
+				return
+			}
+			n := 0
+			x.bm.Range(func(uint32) bool { n++; return true })
+			for range x.bm.All() {
+				n++
+			}
+			for it := x.bm.Iter(); it.Next(); {
+				n++
+			}
+			x.bm.Contains(want[0])
+			x.bm.Len()
+		}
+		if !x.call("Range", func() {
+			out = out[:0]
+			x.bm.Range(func(v uint32) bool {
+				nested(len(out))
+				out = append(out, v)
+				return len(out) < limit
+			})
+		}) {
+			return
+		}
+		if !x.cmpEnum("Range (with Range, All, Iter, Contains, Len called from its callback)", out, want, note) {
+			return
+		}
+		if !x.call("All", func() {
+			out = out[:0]
+			for v := range x.bm.All() {
+				nested(len(out))
+				out = append(out, v)
+				if len(out) >= limit {
+					break
+				}
+			}
+		}) {
+			return
+		}
+		if !x.cmpEnum("All (with Range, All, Iter, Contains, Len called from the loop body)", out, want, note) {
+			return
+		}
+		if !x.call("Iter", func() {
+			out = out[:0]
+			for it := x.bm.Iter(); len(out) < limit && it.Next(); {
+				nested(len(out))
+				out = append(out, it.Value())
+			}
+		}) {
+			return
+		}
+		if !x.cmpEnum("Iter (with Range, All, Iter, Contains, Len called between Next and Value)", out, want, note) {
+			return
+		}
+	}
 
 	if !x.call("All", func() {
 		out = out[:0]
@@ -696,7 +763,23 @@ func (x *inst) battery(note string) {
 
 	// early stop: fn / yield returns false at its k-th call, k = 1..3 (only where the complete
 	// enumeration was right, a wrong one would only be echoed)
-	for k := 1; k <= 3 && k <= len(want); k++ {
+	stops := []int{1, 2, 3}
+	if len(want) > 0 { // and at the last element of the first bucket and the first of the next
+		fb := 0
+		for fb < len(want) && want[fb]>>16 == want[0]>>16 {
+			fb++
+		}
+		if fb > 3 {
+			stops = append(stops, fb)
+		}
+		if fb+1 > 3 {
+			stops = append(stops, fb+1)
+		}
+	}
+	for _, k := range stops {
+		if k > len(want) {
+			continue
+		}
 		for _, entry := range []string{"Range", "All"} {
 			if (entry == "Range" && !rangeOK) || (entry == "All" && !allOK) {
 				continue
